@@ -8,6 +8,7 @@ exact-size heap buffers.
 import hashlib
 import hmac
 import random
+import threading
 import zlib
 
 from . import core
@@ -69,8 +70,56 @@ def crc_expected(data):
     return r.to_bytes(4, 'big').translate(_REV)
 
 
+def _mulmod(a, b):
+    """Product of two polynomials over GF(2) (bit i = x^i) modulo POLY."""
+    r = 0
+    while b:
+        if b & 1:
+            r ^= a
+        b >>= 1
+        a <<= 1
+        if a >> 32:
+            a ^= POLY
+    return r
+
+
+def _xpow(n):
+    """x^n modulo POLY."""
+    r, b = 1, 2
+    while n:
+        if n & 1:
+            r = _mulmod(r, b)
+        b = _mulmod(b, b)
+        n >>= 1
+    return r
+
+
+def _fold(r, rev):
+    """(r * x^(8 len) + bytes) modulo POLY; `rev` = bytes already bit-reversed."""
+    for b in rev:
+        r = (r << 8) | b
+        r = (r & 0xffffffff) ^ _T[r >> 32]
+    return r
+
+
+def crc_expected_periodic(chunk, reps, tail):
+    """crc_expected(chunk * reps + tail) without building the message: the
+    state after one more chunk is state * x^(8 len(chunk)) + (chunk mod POLY)."""
+    c0 = _fold(0, chunk.translate(_REV))
+    xl = _xpow(8 * len(chunk))
+    r = 1
+    for _ in range(reps):
+        r = _mulmod(r, xl) ^ c0
+    r = _fold(r, tail.translate(_REV) + b'\0\0\0\0')
+    return r.to_bytes(4, 'big').translate(_REV)
+
+
 def _selftest():
     rnd = random.Random(5)
+    for n, reps, t in ((1, 1, 0), (3, 7, 2), (37, 5, 3), (64, 33, 0), (5, 0, 4)):
+        ch = bytes(rnd.randrange(256) for _ in range(n))
+        tl = bytes(rnd.randrange(256) for _ in range(t))
+        assert crc_expected_periodic(ch, reps, tl) == crc_expected(ch * reps + tl)
     for n in (0, 1, 2, 5, 9, 33):
         d = bytes(rnd.randrange(256) for _ in range(n))
         c = bytes(rnd.randrange(256) for _ in range(4))
@@ -212,7 +261,127 @@ def gen_cases(seed, tier, shard, nshards):
         p = partition(rnd, n, 'rand')
         add('crc32c', 'C %d %s %s' % (al, core.hx(m), pstr(p)), ('crc', m),
             sig('C', al, n, tuple(p[:6])), True)
+    cases += overlap_cases(rnd, tier, shard, nshards)
     return cases
+
+
+DLEN = {'sha256': 32, 'sha1': 20, 'md5': 16}
+OVERLAP_KINDS = ['ov-buf', 'ov-final', 'ov-hmacbuf', 'ov-hmacfinal', 'ov-chain', 'ov-pbkdf2']
+
+
+def arena_layout(rnd, ilen, olen, layout):
+    """-> (aoff, boff): input at arena+aoff, output at arena+boff, overlapping
+    (for ilen > 0) in the way `layout` names."""
+    if layout == 'same' or ilen == 0:          # output starts where the input starts
+        return 0, 0
+    if layout == 'inside' and ilen > olen:     # output strictly inside the input
+        return 0, rnd.randrange(1, ilen - olen + 1)
+    if layout == 'tail' or layout == 'inside':  # starts inside, ends at or behind the end
+        return 0, rnd.randrange(max(0, ilen - olen), ilen)
+    if layout == 'head':                       # starts before the input, ends inside or behind
+        return (rnd.randrange(1, olen), 0) if olen >= 2 else (0, 0)
+    raise ValueError(layout)
+
+
+def overlap_cases(rnd, tier, shard, nshards):
+    """Calls whose output buffer overlaps an input buffer.  In the unchanged
+    library every input byte is absorbed before the first output byte is
+    stored (PBKDF2: password and salt are absorbed into Phctx / PShctx before
+    the block loop), so the value is the specified function of the ORIGINAL
+    bytes; expected values are computed from those."""
+    out = []
+    reps = 1 if tier == 'quick' else 6
+    k = [0]
+
+    def mine():
+        k[0] += 1
+        return k[0] % nshards == shard
+
+    def add(kind, line, expect, s):
+        out.append({'kind': kind, 'line': line, 'expect': expect, 'sig': s, 'nt': True})
+
+    layouts = ['same', 'inside', 'tail', 'head']
+    for _ in range(reps):
+        # digest of *_Buf / *_Final written over the message that was hashed
+        for alg in ALGS:
+            dl = DLEN[alg]
+            for n in [1, dl - 1, dl, dl + 1, 55, 56, 63, 64, 65, 119, 120, 128,
+                      rnd.randrange(1, 600), rnd.randrange(1, 600)]:
+                for lay in layouts:
+                    if not mine():
+                        continue
+                    m = rbytes(rnd, n)
+                    exp = HL[alg](m).hexdigest()
+                    ao, bo = arena_layout(rnd, n, dl, lay)
+                    if rnd.random() < 0.5:
+                        add('ov-buf-' + alg, 'O B %s %s %d %d' % (alg, core.hx(m), ao, bo), exp,
+                            sig('OB', alg, n, lay))
+                    else:
+                        p = partition(rnd, n, rnd.choice(['one', 'rand']))
+                        add('ov-final-' + alg, 'O H %s %s %s %d %d' % (alg, core.hx(m), pstr(p), ao, bo),
+                            exp, sig('OH', alg, n, lay, len(p)))
+        # HMAC: tag written over the message / over the key; key lengths on
+        # both sides of the 64-byte block
+        for alg in ALGS:
+            dl = DLEN[alg]
+            for kl in [0, 1, 32, 63, 64, 65, 66, 100, 128, 200, rnd.randrange(65, 400)]:
+                key = rbytes(rnd, kl)
+                for which, lay in [('m', 'same'), ('m', 'inside'), ('m', 'tail'), ('m', 'head'),
+                                   ('k', rnd.choice(layouts))]:
+                    if not mine():
+                        continue
+                    ml = rnd.choice([dl, dl, rnd.randrange(1, dl), rnd.randrange(dl + 1, 200),
+                                     64, rnd.randrange(1, 400)])
+                    if lay == 'same' and which == 'm' and rnd.random() < 0.7:
+                        ml = dl                 # digest == in exactly
+                    m = rbytes(rnd, ml)
+                    exp = hmac.new(key, m, HL[alg]).hexdigest()
+                    ao, bo = arena_layout(rnd, ml if which == 'm' else kl, dl, lay)
+                    if rnd.random() < 0.6:
+                        add('ov-hmacbuf-' + alg, 'O N %s %s %s %s %d %d' % (
+                            alg, core.hx(key), core.hx(m), which, ao, bo), exp,
+                            sig('ON', alg, kl, which, lay, ml == dl))
+                    else:
+                        p = partition(rnd, ml, rnd.choice(['one', 'rand']))
+                        add('ov-hmacfinal-' + alg, 'O M %s %s %s %s %s %d %d' % (
+                            alg, core.hx(key), core.hx(m), pstr(p), which, ao, bo), exp,
+                            sig('OM', alg, kl, which, lay, len(p)))
+                # chains in place: h = HMAC(K, h) (mode 0 one-shot, 1 streaming),
+                # h = H(h) (2 one-shot, 3 streaming)
+                for mode in (0, 1, 2 if kl in (0, 64) else 0, 3 if kl in (1, 65) else 0):
+                    if not mine():
+                        continue
+                    ml = rnd.choice([dl, dl, dl, rnd.randrange(dl, 150)])
+                    doff = rnd.randrange(0, ml - dl + 1)
+                    iters = rnd.randrange(2, 6)
+                    m = rbytes(rnd, ml)
+                    a = bytearray(m)
+                    for _i in range(iters):
+                        dg = hmac.new(key, bytes(a), HL[alg]).digest() if mode < 2 else \
+                            HL[alg](bytes(a)).digest()
+                        a[doff:doff + dl] = dg
+                    add('ov-chain-' + alg, 'O I %s %s %s %d %d %d' % (
+                        alg, core.hx(key), core.hx(m), doff, iters, mode), dg.hex(),
+                        sig('OI', alg, kl, ml == dl, doff == 0, iters, mode))
+        # PBKDF2: derived key written over the salt / over the password
+        for dk in [1, 20, 31, 32, 33, 40, 63, 64, 65, 95, 96, 97, 100, 128, 129, 200,
+                   rnd.randrange(33, 400), rnd.randrange(65, 1000)]:
+            for which in 'sp':
+                for lay in layouts:
+                    if not mine():
+                        continue
+                    il = rnd.choice([dk, dk, rnd.randrange(1, 101), rnd.randrange(1, 101),
+                                     rnd.randrange(dk, dk + 100)])
+                    ol = rnd.choice([0, 1, 8, 63, 64, 65, 100, rnd.randrange(0, 300)])
+                    c = rnd.choice([1, 2, 3, rnd.randrange(1, 60)])
+                    inp, oth = rbytes(rnd, il), rbytes(rnd, ol)
+                    pw, salt = (oth, inp) if which == 's' else (inp, oth)
+                    ao, bo = arena_layout(rnd, il, dk, lay)
+                    exp = hashlib.pbkdf2_hmac('sha256', pw, salt, c, dk).hex()
+                    add('ov-pbkdf2', 'O P %s %s %d %d %s %d %d' % (
+                        core.hx(pw), core.hx(salt), c, dk, which, ao, bo), exp,
+                        sig('OP', which, lay, dk, il == dk, min(c, 4)))
+    return out
 
 
 def judge(c, ans):
@@ -259,11 +428,110 @@ def long_cases(seed, tier):
     return out
 
 
+# ---- one single call of 2^32 + d bytes --------------------------------------
+HUGE_CHUNK = 2 << 20
+HUGE_REPS = 2048
+
+
+def huge_message_parts(blk, off):
+    """The message of a `G` line is rot * 2048 + rot[:d], rot = the 2 MiB
+    pattern (the block repeated) rotated by <off>."""
+    chunk = blk * (HUGE_CHUNK // len(blk))
+    return chunk[off:] + chunk[:off]
+
+
+def huge_expected(line):
+    """Specified value of a `G` line, from the line alone (also used by replay)."""
+    t = line.split()
+    return huge_value(t[1], bytes.fromhex(t[5]), int(t[3]), int(t[4]))
+
+
+def huge_value(alg, blk, off, d):
+    """Digest / CRC32C of the 2^32+d bytes that start <off> bytes into the
+    periodic region (hex); also used by vlib/c03.py."""
+    rot = huge_message_parts(blk, off)
+    if alg == 'crc32c':
+        return crc_expected_periodic(rot, HUGE_REPS, rot[:d]).hex()
+    h = HL[alg]()
+    big = rot * 16
+    for _ in range(HUGE_REPS // 16):
+        h.update(big)
+    h.update(rot[:d])
+    return h.hexdigest()
+
+
+def huge_specs(seed, tier):
+    """-> [(build, alg, mode)].  Quick: one one-call case of SHA-1 (one-shot
+    or single Update, by seed; SHA1_Buf is Init + one SHA1_Update + Final),
+    one of SHA-256 (SHA-NI build) and CRC32C (both builds, with the 1 GiB
+    pieces control); thorough: every algorithm x {buf, upd} and
+    CRC32C x {upd, gib} on both builds."""
+    if tier == 'quick':
+        return [('default', 'sha1', 'buf' if seed % 2 else 'upd'),
+                ('default', 'sha256', 'upd' if seed % 2 else 'buf'),
+                ('default', 'crc32c', 'upd'), ('default', 'crc32c', 'gib'),
+                ('portable', 'crc32c', 'upd')]
+    return [(b, a, m) for b in ('default', 'portable') for a in ALGS for m in ('buf', 'upd')] + \
+        [(b, 'crc32c', m) for b in ('default', 'portable') for m in ('upd', 'gib')]
+
+
+def huge_cases(seed, tier):
+    rnd = random.Random(seed ^ 0x4616)
+    out = []
+    for build, alg, mode in huge_specs(seed, tier):
+        blk = rbytes(rnd, 4096)
+        off = rnd.randrange(0, 64)
+        d = rnd.choice([rnd.randrange(1, 64), rnd.randrange(1, 3000), rnd.randrange(1, 1 << 20)])
+        out.append((build, {'kind': 'huge-%s-%s' % (alg, mode),
+                            'line': 'G %s %s %d %d %s' % (alg, mode, off, d, blk.hex()),
+                            'expect': 'huge', 'sig': sig('G', build, alg, mode), 'nt': True}))
+    return out
+
+
+def _huge(a):
+    """The driver and the reference (hashlib over the same periodic bytes, or
+    the CRC algebra on the periodic structure) run side by side."""
+    exe, case = a
+    box = {}
+
+    def ref():
+        try:
+            box['exp'] = huge_expected(case['line'])
+        except Exception as e:      # noqa: BLE001
+            box['err'] = repr(e)
+    th = threading.Thread(target=ref)
+    th.start()
+
+    def j(c, ans):
+        th.join()
+        if 'err' in box:
+            raise core.Inconclusive('reference computation failed: ' + box['err'])
+        if ans != box['exp']:
+            return ('oracle:' + c['kind'], 'one call of 2^32+%s bytes: expected %s got %s' % (
+                c['line'].split()[4], box['exp'], ans))
+        return None
+    r = core.line_shard(exe, [case], judge=j, timeout=3600)
+    th.join()
+    return r
+
+
+def _job(a):
+    return {'shard': _shard, 'long': _long, 'huge': _huge}[a[0]](a[1:])
+
+
 def _shard(a):
     exe, seed, tier, i, n = a
     cases = gen_cases(seed, tier, i, n)
-    r = core.line_shard(exe, cases, judge=judge)
+    ov = {}
+
+    def j(c, ans):          # called once per answered case
+        if c['kind'].startswith('ov-'):
+            k = c['kind'] if c['kind'] == 'ov-pbkdf2' else c['kind'].rsplit('-', 1)[0]
+            ov[k] = ov.get(k, 0) + 1
+        return judge(c, ans)
+    r = core.line_shard(exe, cases, judge=j)
     r['samples'] = [c['line'][:160] for c in cases[:2]]
+    r['overlap'] = ov
     return r
 
 
@@ -286,25 +554,59 @@ def run(ctx):
     exep = build(ctx, portable=True)
     n = core.NCPU
     seeds = core.shard_seeds(ctx.seed, 'C01', 2 * n)
-    res = core.pmap(_shard, [(exe, seeds[i], ctx.tier, i, n) for i in range(n)] +
-                    [(exep, seeds[n + i], ctx.tier, i, n) for i in range(n)])
+    exes = {'default': exe, 'portable': exep}
+    hc = huge_cases(ctx.seed, ctx.tier)
+    lc = long_cases(ctx.seed, ctx.tier)
+    # the 4 GiB calls are the longest jobs: they start first and run beside
+    # the long streams and the shards
+    jobs = [('huge', exes[b], c) for b, c in hc] + \
+        [('long', exe, c) for c in lc] + \
+        [('long', exep, c) for c in lc if c['line'].startswith('L sha256')] + \
+        [('shard', exe, seeds[i], ctx.tier, i, n) for i in range(n)] + \
+        [('shard', exep, seeds[n + i], ctx.tier, i, n) for i in range(n)]
+    allres = core.pmap(_job, jobs)
+    hres = [r for j, r in zip(jobs, allres) if j[0] == 'huge']
+    lres = [r for j, r in zip(jobs, allres) if j[0] == 'long']
+    res = [r for j, r in zip(jobs, allres) if j[0] == 'shard']
     core.merge(ctx, res)
     for r in res[:4]:
         for s in r['samples'][:1]:
             ctx.add_sample(s)
-    lc = long_cases(ctx.seed, ctx.tier)
-    lres = core.pmap(_long, [(exe, c) for c in lc] + [(exep, c) for c in lc if c['line'].startswith('L sha256')])
     core.merge(ctx, lres)
+    core.merge(ctx, hres)
+    for (b, c), r in zip(hc, hres):
+        ctx.count('single_calls_of_2^32+d_bytes', r['evals'])
+        ctx.count('single_call_2^32_%s_%s_%s' % (c['kind'][5:].replace('-', '_'), b, 'answered'),
+                  r['evals'])
+    ctx.add_sample(hc[0][1]['line'][:60] + '...')
+    for kind in OVERLAP_KINDS:
+        ctx.count('overlap_cases_' + kind[3:], sum(r['overlap'].get(kind, 0) for r in res))
+    if any(r['evals'] == 0 for r in hres) and not ctx.violations and not ctx.known_hits:
+        ctx.note_inconclusive('a single call of 2^32+d bytes gave no answer')
     ctx.cov['builds'] = ['default (SHA-NI / SSE2 / SSE4.2 as the CPU allows)', 'portable (no CPU feature compiled in)']
     ctx.count('long_streams_over_2^32_bits', sum(r['evals'] for r in lres))
     ctx.cov['rule'] = ('cases = (algorithm, message, partition into update calls[, key | salt,c,dkLen | alignment]); '
                        'every length 0..600 x {single, bytewise, random} partitions, every HMAC key length 0..200, '
                        'every PBKDF2 dkLen 1..200 and lengths around 255/256 and 511/512 output blocks (65535/65536 in thorough), every (CRC length 0..80, alignment 0..15), plus random; '
+                       'overlapping buffers (one exact-size heap block holds the input and receives the output; output starts where the input starts / strictly inside it / '
+                       'inside it and ends at or behind its end / before it and ends inside it): digest of *_Buf and *_Final over the hashed message (lengths around the block and digest sizes), '
+                       'HMAC_*_Buf / HMAC_*_Final tag over the message (digest == in, tag field inside the message) or over the key for key lengths 0,1,32,63,64,65,66,100,128,200 and random > 64, '
+                       'chains computed in place h = HMAC(K,h) and h = H(h) (2..5 rounds, one-shot and streaming), PBKDF2 derived key over the salt or over the password '
+                       '(buf == salt, buf inside salt, dkLen 1..1000 incl. 33..64 and > 64, c <= 60); expected values = hashlib/hmac/pbkdf2_hmac of the ORIGINAL bytes '
+                       '(on the unchanged library every such overlap gives the specified value: all inputs are absorbed before the first output byte is stored; '
+                       'not generated: outputs overlapping a context structure, and a PBKDF2 buf overlapping salt AND password at once); '
+                       'ONE call of 2^32+d bytes (d random, message start 0..63 bytes off a page boundary; a 2 MiB memory file mapped 2049 times back to back, so no 4 GiB are allocated): '
+                       'quick = SHA1_Buf or one SHA1_Update (by seed), one SHA-256 call (SHA-NI build), one CRC32C_Update on both builds and the same bytes in 1 GiB pieces; '
+                       'thorough = {SHA-256, SHA-1, MD5} x {*_Buf, one *_Update} and CRC32C x {one Update, 1 GiB pieces} on both builds; expected = hashlib fed the same periodic bytes, '
+                       'CRC32C = the polynomial algebra evaluated on the periodic structure (state after one more 2 MiB period = state * x^(8*2^21) + period, mod the polynomial), '
+                       'so single call and pieces are each compared with the exact value; '
                        'non-trivial = >= 2 update calls or a length within 9 of a 64-byte boundary (all HMAC/PBKDF2/CRC cases count); '
                        'distinct = distinct (kind, lengths, partition shape) signatures')
     ctx.cov['sanitizers'] = 'gcc -fsanitize=address,undefined (nonnull-attribute off), exact-size heap buffers'
     ctx.assumptions += ['Python hashlib/hmac (OpenSSL) implement FIPS 180-4, RFC 1321, RFC 2104, RFC 8018',
-                        'lengths above 64 KiB are sampled by one >2^32-bit stream per algorithm only']
+                        'lengths above 64 KiB are sampled by one >2^32-bit stream per algorithm and by the single calls of 2^32+d bytes only '
+                        '(periodic content, period 4 KiB rotated)',
+                        'overlap cases: the output overlaps ONE input (message, key, salt or password); an output overlapping a context is not exercised']
 
 
 def replay(ctx, case):
@@ -314,6 +616,9 @@ def replay(ctx, case):
 
 def _replay1(ctx, case, exe):
     c = dict(case)
+    if c['line'].startswith('G '):
+        core.merge(ctx, [_huge((exe, c))])
+        return
     if isinstance(c.get('expect'), list):
         c['expect'] = ('crc', bytes.fromhex(c['line'].split()[2]) if c['line'].split()[2] != '-' else b'')
     r = core.line_shard(exe, [c], judge=judge, timeout=1800)
